@@ -1,2 +1,899 @@
-pub use std::thread;
-pub use std::sync::mpsc;
+//! Deterministic scheduler shim: drop-in `thread` and `mpsc` for /repo/src/build.rs.
+//!
+//! Outside a controlled execution (no thread-local context) everything delegates to std.
+//! Inside one, real OS threads are used but exactly one holds the baton; the baton moves
+//! only at yield points (spawn, join, send, recv, thread exit, every VerifSystem call).
+//! "No runnable thread while some thread is unfinished" is a deadlock, decided
+//! structurally and never by a timeout.
+
+use std::any::Any;
+use std::cell::RefCell;
+use std::collections::VecDeque;
+use std::sync::{Arc, Condvar, Mutex, MutexGuard};
+
+// ---------------------------------------------------------------------------------------
+// policies
+
+pub trait Policy: Send
+{
+    /// `runnable` is sorted ascending and non-empty; `current` is Some(id) when the yielding
+    /// thread itself can continue.  Returns the id to run next (must be in `runnable`).
+    fn choose(&mut self, runnable: &[usize], current: Option<usize>, step: u64) -> usize;
+}
+
+pub struct Serial
+{
+    pub highest: bool,
+}
+
+impl Policy for Serial
+{
+    fn choose(&mut self, runnable: &[usize], current: Option<usize>, _step: u64) -> usize
+    {
+        match current
+        {
+            Some(c) => c,
+            None => if self.highest { *runnable.last().unwrap() } else { runnable[0] },
+        }
+    }
+}
+
+/// Serial baseline plus a bounded list of preemptions `(step, choice)`: at yield point
+/// number `step` the baton goes to the `choice`-th other runnable thread (if any).
+pub struct Preempt
+{
+    pub highest: bool,
+    pub points: Vec<(u64, u16)>,
+    pub taken: Arc<Mutex<u32>>,
+}
+
+impl Policy for Preempt
+{
+    fn choose(&mut self, runnable: &[usize], current: Option<usize>, step: u64) -> usize
+    {
+        for (s, c) in self.points.iter()
+        {
+            if *s == step
+            {
+                let others: Vec<usize> = runnable.iter().cloned().filter(|r| Some(*r) != current).collect();
+                if !others.is_empty()
+                {
+                    if current.is_some()
+                    {
+                        *self.taken.lock().unwrap() += 1;
+                    }
+                    return others[(*c as usize) % others.len()];
+                }
+            }
+        }
+        match current
+        {
+            Some(c) => c,
+            None => if self.highest { *runnable.last().unwrap() } else { runnable[0] },
+        }
+    }
+}
+
+pub struct XorShift(pub u64);
+
+impl XorShift
+{
+    pub fn new(seed: u64) -> Self
+    {
+        let mut x = XorShift(seed ^ 0x9E3779B97F4A7C15);
+        if x.0 == 0 { x.0 = 0x1234567; }
+        for _ in 0..4 { x.next(); }
+        x
+    }
+    pub fn next(&mut self) -> u64
+    {
+        let mut x = self.0;
+        x ^= x << 13;
+        x ^= x >> 7;
+        x ^= x << 17;
+        self.0 = x;
+        x.wrapping_mul(0x2545F4914F6CDD1D)
+    }
+    pub fn below(&mut self, n: u64) -> u64
+    {
+        if n == 0 { 0 } else { (self.next() >> 11) % n }
+    }
+}
+
+/// Uniform random walk: at every yield point, with probability `switch_num/16`, jump to a
+/// uniformly chosen runnable thread.
+pub struct RandomWalk
+{
+    pub rng: XorShift,
+    pub switch_num: u64,
+}
+
+impl Policy for RandomWalk
+{
+    fn choose(&mut self, runnable: &[usize], current: Option<usize>, _step: u64) -> usize
+    {
+        match current
+        {
+            Some(c) if self.rng.below(16) >= self.switch_num => c,
+            _ => runnable[self.rng.below(runnable.len() as u64) as usize],
+        }
+    }
+}
+
+/// PCT-style: random priorities per thread, `d` priority change points at random steps.
+pub struct Pct
+{
+    pub rng: XorShift,
+    pub prios: Vec<u64>,
+    pub change_points: Vec<u64>,
+}
+
+impl Pct
+{
+    pub fn new(seed: u64, d: usize, horizon: u64) -> Self
+    {
+        let mut rng = XorShift::new(seed);
+        let mut cps = vec![];
+        for _ in 0..d
+        {
+            cps.push(1 + rng.below(horizon.max(1)));
+        }
+        Pct { rng, prios: vec![], change_points: cps }
+    }
+    fn prio(&mut self, id: usize) -> u64
+    {
+        while self.prios.len() <= id
+        {
+            let p = 1000 + self.rng.below(1_000_000);
+            self.prios.push(p);
+        }
+        self.prios[id]
+    }
+}
+
+impl Policy for Pct
+{
+    fn choose(&mut self, runnable: &[usize], current: Option<usize>, step: u64) -> usize
+    {
+        if let Some(c) = current
+        {
+            if self.change_points.contains(&step)
+            {
+                let _ = self.prio(c);
+                // drop below every initial priority; later change points go lower still
+                self.prios[c] = step % 1000;
+            }
+        }
+        let mut best = runnable[0];
+        let mut bp = self.prio(best);
+        for r in runnable.iter().skip(1)
+        {
+            let p = self.prio(*r);
+            if p > bp
+            {
+                best = *r;
+                bp = p;
+            }
+        }
+        best
+    }
+}
+
+/// Force an exact recorded sequence; falls back to serial when the trace ends or names a
+/// thread that is not runnable (flagged in `diverged`).
+pub struct Replay
+{
+    pub trace: Vec<u16>,
+    pub pos: usize,
+    pub diverged: Arc<Mutex<bool>>,
+}
+
+impl Policy for Replay
+{
+    fn choose(&mut self, runnable: &[usize], current: Option<usize>, _step: u64) -> usize
+    {
+        if self.pos < self.trace.len()
+        {
+            let want = self.trace[self.pos] as usize;
+            self.pos += 1;
+            if runnable.contains(&want)
+            {
+                return want;
+            }
+            *self.diverged.lock().unwrap() = true;
+        }
+        match current
+        {
+            Some(c) => c,
+            None => runnable[0],
+        }
+    }
+}
+
+// ---------------------------------------------------------------------------------------
+// execution state
+
+#[derive(Clone, Debug, PartialEq)]
+enum Status
+{
+    Runnable,
+    BlockedRecv(usize),
+    BlockedJoin(usize),
+    Finished,
+}
+
+#[derive(Default, Clone, Debug)]
+pub struct Events
+{
+    pub yields: u64,
+    pub switches: u64,
+    pub preemptions: u64,
+    pub max_runnable: usize,
+    pub threads: usize,
+    pub sends: u64,
+    pub send_to_dropped_receiver: u64,
+    pub recv_blocked: u64,
+    pub recv_on_closed: u64,
+    pub join_blocked: u64,
+}
+
+struct St
+{
+    current: usize,
+    status: Vec<Status>,
+    live_os_threads: usize,
+    aborting: Option<String>,
+    deadlock: Option<String>,
+    step: u64,
+    policy: Box<dyn Policy>,
+    trace: Vec<u16>,
+    record_trace: bool,
+    panics: Vec<String>,
+    next_chan: usize,
+    ev: Events,
+}
+
+pub struct Inner
+{
+    m: Mutex<St>,
+    cv: Condvar,
+}
+
+struct AbortToken;
+
+thread_local!
+{
+    static CTX: RefCell<Option<(Arc<Inner>, usize)>> = RefCell::new(None);
+    static IN_HARNESS_PANIC_OK: RefCell<bool> = RefCell::new(false);
+}
+
+fn ctx() -> Option<(Arc<Inner>, usize)>
+{
+    CTX.with(|c| c.borrow().clone())
+}
+
+pub fn in_controlled() -> bool
+{
+    CTX.with(|c| c.borrow().is_some())
+}
+
+pub fn current_thread_id() -> usize
+{
+    CTX.with(|c| c.borrow().as_ref().map(|x| x.1).unwrap_or(0))
+}
+
+fn lock(inner: &Inner) -> MutexGuard<'_, St>
+{
+    inner.m.lock().unwrap_or_else(|e| e.into_inner())
+}
+
+fn unwind_abort() -> !
+{
+    std::panic::resume_unwind(Box::new(AbortToken))
+}
+
+impl St
+{
+    fn runnable(&self) -> Vec<usize>
+    {
+        self.status.iter().enumerate().filter(|(_, s)| **s == Status::Runnable).map(|(i, _)| i).collect()
+    }
+
+    fn describe(&self) -> String
+    {
+        let mut s = String::new();
+        for (i, st) in self.status.iter().enumerate()
+        {
+            s.push_str(&format!("t{}:{:?} ", i, st));
+        }
+        s
+    }
+}
+
+/// Hand the baton on.  `me_runnable` says whether the caller may be chosen again.
+/// Returns with the baton held by `me` (or unwinds on abort).
+fn reschedule(inner: &Arc<Inner>, mut st: MutexGuard<'_, St>, me: usize, me_runnable: bool)
+{
+    if st.aborting.is_some()
+    {
+        drop(st);
+        unwind_abort();
+    }
+    st.step += 1;
+    st.ev.yields += 1;
+    let runnable = st.runnable();
+    if runnable.len() > st.ev.max_runnable
+    {
+        st.ev.max_runnable = runnable.len();
+    }
+    if runnable.is_empty()
+    {
+        // nobody can run: deadlock (the caller is blocked, not finished)
+        let d = format!("deadlock at step {}: {}", st.step, st.describe());
+        st.deadlock = Some(d.clone());
+        st.aborting = Some(d);
+        inner.cv.notify_all();
+        drop(st);
+        unwind_abort();
+    }
+    let step = st.step;
+    let next = st.policy.choose(&runnable, if me_runnable { Some(me) } else { None }, step);
+    let next = if runnable.contains(&next) { next } else { runnable[0] };
+    if st.record_trace
+    {
+        st.trace.push(next as u16);
+    }
+    if next != me
+    {
+        st.ev.switches += 1;
+        if me_runnable
+        {
+            st.ev.preemptions += 1;
+        }
+        st.current = next;
+        inner.cv.notify_all();
+        loop
+        {
+            st = inner.cv.wait(st).unwrap_or_else(|e| e.into_inner());
+            if st.aborting.is_some()
+            {
+                drop(st);
+                unwind_abort();
+            }
+            if st.current == me
+            {
+                break;
+            }
+        }
+    }
+}
+
+/// A plain yield point; no-op outside a controlled execution.
+pub fn yield_here()
+{
+    if let Some((inner, me)) = ctx()
+    {
+        let st = lock(&inner);
+        reschedule(&inner, st, me, true);
+    }
+}
+
+/// Abort the whole controlled execution (crash injection): every thread unwinds.
+pub fn abort_all(reason: &str) -> !
+{
+    if let Some((inner, _me)) = ctx()
+    {
+        let mut st = lock(&inner);
+        if st.aborting.is_none()
+        {
+            st.aborting = Some(reason.to_string());
+        }
+        inner.cv.notify_all();
+        drop(st);
+        unwind_abort();
+    }
+    panic!("abort_all outside controlled execution: {}", reason);
+}
+
+pub fn is_aborting() -> bool
+{
+    match ctx()
+    {
+        Some((inner, _)) => lock(&inner).aborting.is_some(),
+        None => false,
+    }
+}
+
+pub struct RunOutcome<R>
+{
+    pub result: Option<R>,
+    pub panics: Vec<String>,
+    pub deadlock: Option<String>,
+    pub aborted: Option<String>,
+    pub steps: u64,
+    pub trace: Vec<u16>,
+    pub events: Events,
+    pub leftover_threads: usize,
+}
+
+static HOOK: std::sync::Once = std::sync::Once::new();
+
+pub fn install_panic_hook()
+{
+    HOOK.call_once(||
+    {
+        let prev = std::panic::take_hook();
+        std::panic::set_hook(Box::new(move |info|
+        {
+            if let Some((inner, me)) = ctx()
+            {
+                let msg = if let Some(s) = info.payload().downcast_ref::<&str>() { s.to_string() }
+                    else if let Some(s) = info.payload().downcast_ref::<String>() { s.clone() }
+                    else { "<non-string panic>".to_string() };
+                let loc = info.location().map(|l| format!("{}:{}", l.file(), l.line())).unwrap_or_default();
+                let mut st = lock(&inner);
+                st.panics.push(format!("thread {} panicked at {}: {}", me, loc, msg));
+                return;
+            }
+            let quiet = IN_HARNESS_PANIC_OK.with(|q| *q.borrow());
+            if !quiet
+            {
+                prev(info);
+            }
+        }));
+    });
+}
+
+/// Run `f` on the calling thread as controlled thread 0 under `policy`.
+pub fn run_controlled<R>(policy: Box<dyn Policy>, record_trace: bool, f: impl FnOnce() -> R) -> RunOutcome<R>
+{
+    install_panic_hook();
+    assert!(!in_controlled(), "nested controlled execution");
+    let inner = Arc::new(Inner
+    {
+        m: Mutex::new(St
+        {
+            current: 0,
+            status: vec![Status::Runnable],
+            live_os_threads: 0,
+            aborting: None,
+            deadlock: None,
+            step: 0,
+            policy,
+            trace: vec![],
+            record_trace,
+            panics: vec![],
+            next_chan: 0,
+            ev: Events::default(),
+        }),
+        cv: Condvar::new(),
+    });
+    CTX.with(|c| *c.borrow_mut() = Some((inner.clone(), 0)));
+    let r = std::panic::catch_unwind(std::panic::AssertUnwindSafe(f));
+    // thread 0 is done: drain the others
+    let mut leftover = 0;
+    {
+        let mut st = lock(&inner);
+        st.status[0] = Status::Finished;
+        // wake joiners of 0 (none in practice)
+        leftover = st.status.iter().filter(|s| **s != Status::Finished).count();
+        if st.aborting.is_none()
+        {
+            let runnable = st.runnable();
+            if !runnable.is_empty()
+            {
+                let step = st.step;
+                let next = st.policy.choose(&runnable, None, step);
+                let next = if runnable.contains(&next) { next } else { runnable[0] };
+                st.current = next;
+                inner.cv.notify_all();
+            }
+            else if leftover > 0
+            {
+                let d = format!("leftover threads blocked after caller returned: {}", st.describe());
+                st.deadlock = Some(d.clone());
+                st.aborting = Some(d);
+                inner.cv.notify_all();
+            }
+        }
+        else
+        {
+            inner.cv.notify_all();
+        }
+        while st.live_os_threads > 0
+        {
+            st = inner.cv.wait(st).unwrap_or_else(|e| e.into_inner());
+        }
+    }
+    CTX.with(|c| *c.borrow_mut() = None);
+    let mut st = lock(&inner);
+    let result = match r
+    {
+        Ok(v) => Some(v),
+        Err(p) =>
+        {
+            if p.downcast_ref::<AbortToken>().is_none() && st.panics.is_empty()
+            {
+                st.panics.push("thread 0 panicked (payload unknown)".to_string());
+            }
+            None
+        }
+    };
+    st.ev.threads = st.status.len();
+    RunOutcome
+    {
+        result,
+        panics: st.panics.clone(),
+        deadlock: st.deadlock.clone(),
+        aborted: st.aborting.clone(),
+        steps: st.step,
+        trace: std::mem::take(&mut st.trace),
+        events: st.ev.clone(),
+        leftover_threads: leftover,
+    }
+}
+
+/// Called by a finishing controlled thread (not thread 0): pass the baton on.
+fn thread_finished(inner: &Arc<Inner>, me: usize)
+{
+    let mut st = lock(inner);
+    st.status[me] = Status::Finished;
+    for i in 0..st.status.len()
+    {
+        if st.status[i] == Status::BlockedJoin(me)
+        {
+            st.status[i] = Status::Runnable;
+        }
+    }
+    if st.aborting.is_none()
+    {
+        st.step += 1;
+        let runnable = st.runnable();
+        if !runnable.is_empty()
+        {
+            let step = st.step;
+            let next = st.policy.choose(&runnable, None, step);
+            let next = if runnable.contains(&next) { next } else { runnable[0] };
+            if st.record_trace
+            {
+                st.trace.push(next as u16);
+            }
+            st.ev.switches += 1;
+            st.current = next;
+        }
+        else if st.status.iter().any(|s| *s != Status::Finished)
+        {
+            let d = format!("deadlock at step {} (after t{} finished): {}", st.step, me, st.describe());
+            st.deadlock = Some(d.clone());
+            st.aborting = Some(d);
+        }
+    }
+    inner.cv.notify_all();
+}
+
+// ---------------------------------------------------------------------------------------
+// thread
+
+pub mod thread
+{
+    use super::*;
+
+    pub enum JoinHandle<T>
+    {
+        Std(std::thread::JoinHandle<T>),
+        Ctl
+        {
+            inner: Arc<Inner>,
+            tid: usize,
+            slot: Arc<Mutex<Option<std::thread::Result<T>>>>,
+        },
+    }
+
+    impl<T> JoinHandle<T>
+    {
+        pub fn join(self) -> std::thread::Result<T>
+        {
+            match self
+            {
+                JoinHandle::Std(h) => h.join(),
+                JoinHandle::Ctl { inner, tid, slot } =>
+                {
+                    let me = current_thread_id();
+                    {
+                        let st = lock(&inner);
+                        reschedule(&inner, st, me, true);
+                    }
+                    loop
+                    {
+                        let mut st = lock(&inner);
+                        if st.status[tid] == Status::Finished
+                        {
+                            break;
+                        }
+                        st.status[me] = Status::BlockedJoin(tid);
+                        st.ev.join_blocked += 1;
+                        reschedule(&inner, st, me, false);
+                    }
+                    let r = slot.lock().unwrap_or_else(|e| e.into_inner()).take();
+                    match r
+                    {
+                        Some(r) => r,
+                        None => Err(Box::new("join slot empty") as Box<dyn Any + Send>),
+                    }
+                }
+            }
+        }
+    }
+
+    pub fn spawn<F, T>(f: F) -> JoinHandle<T>
+    where
+        F: FnOnce() -> T + Send + 'static,
+        T: Send + 'static,
+    {
+        match ctx()
+        {
+            None => JoinHandle::Std(std::thread::spawn(f)),
+            Some((inner, me)) =>
+            {
+                let slot: Arc<Mutex<Option<std::thread::Result<T>>>> = Arc::new(Mutex::new(None));
+                let tid;
+                {
+                    let mut st = lock(&inner);
+                    if st.aborting.is_some()
+                    {
+                        drop(st);
+                        unwind_abort();
+                    }
+                    tid = st.status.len();
+                    st.status.push(Status::Runnable);
+                    st.live_os_threads += 1;
+                }
+                let inner2 = inner.clone();
+                let slot2 = slot.clone();
+                let builder = std::thread::Builder::new().stack_size(1 << 20);
+                let os = builder.spawn(move ||
+                {
+                    CTX.with(|c| *c.borrow_mut() = Some((inner2.clone(), tid)));
+                    // wait for the baton
+                    let mut aborted = false;
+                    {
+                        let mut st = lock(&inner2);
+                        loop
+                        {
+                            if st.aborting.is_some()
+                            {
+                                aborted = true;
+                                break;
+                            }
+                            if st.current == tid
+                            {
+                                break;
+                            }
+                            st = inner2.cv.wait(st).unwrap_or_else(|e| e.into_inner());
+                        }
+                    }
+                    if !aborted
+                    {
+                        let r = std::panic::catch_unwind(std::panic::AssertUnwindSafe(f));
+                        *slot2.lock().unwrap_or_else(|e| e.into_inner()) = Some(r);
+                    }
+                    else
+                    {
+                        drop(f);
+                    }
+                    thread_finished(&inner2, tid);
+                    CTX.with(|c| *c.borrow_mut() = None);
+                    let mut st = lock(&inner2);
+                    st.live_os_threads -= 1;
+                    inner2.cv.notify_all();
+                });
+                if os.is_err()
+                {
+                    let mut st = lock(&inner);
+                    st.live_os_threads -= 1;
+                    st.status[tid] = Status::Finished;
+                    st.aborting = Some("OS thread spawn failed".to_string());
+                    inner.cv.notify_all();
+                    drop(st);
+                    unwind_abort();
+                }
+                // spawning is a yield point (after the new thread exists)
+                {
+                    let st = lock(&inner);
+                    reschedule(&inner, st, me, true);
+                }
+                JoinHandle::Ctl { inner, tid, slot }
+            }
+        }
+    }
+}
+
+// ---------------------------------------------------------------------------------------
+// mpsc
+
+pub mod mpsc
+{
+    use super::*;
+    pub use std::sync::mpsc::{RecvError, SendError};
+
+    pub struct Chan<T>
+    {
+        inner: Arc<Inner>,
+        id: usize,
+        q: Mutex<VecDeque<T>>,
+        senders: Mutex<usize>,
+        receiver_alive: Mutex<bool>,
+    }
+
+    pub enum Sender<T>
+    {
+        Std(std::sync::mpsc::Sender<T>),
+        Ctl(Arc<Chan<T>>),
+    }
+
+    pub enum Receiver<T>
+    {
+        Std(std::sync::mpsc::Receiver<T>),
+        Ctl(Arc<Chan<T>>),
+    }
+
+    pub fn channel<T>() -> (Sender<T>, Receiver<T>)
+    {
+        match ctx()
+        {
+            None =>
+            {
+                let (s, r) = std::sync::mpsc::channel();
+                (Sender::Std(s), Receiver::Std(r))
+            }
+            Some((inner, _me)) =>
+            {
+                let id;
+                {
+                    let mut st = lock(&inner);
+                    id = st.next_chan;
+                    st.next_chan += 1;
+                }
+                let c = Arc::new(Chan
+                {
+                    inner,
+                    id,
+                    q: Mutex::new(VecDeque::new()),
+                    senders: Mutex::new(1),
+                    receiver_alive: Mutex::new(true),
+                });
+                (Sender::Ctl(c.clone()), Receiver::Ctl(c))
+            }
+        }
+    }
+
+    fn wake_receiver(inner: &Arc<Inner>, id: usize)
+    {
+        let mut st = lock(inner);
+        for i in 0..st.status.len()
+        {
+            if st.status[i] == Status::BlockedRecv(id)
+            {
+                st.status[i] = Status::Runnable;
+            }
+        }
+    }
+
+    impl<T> Sender<T>
+    {
+        pub fn send(&self, t: T) -> Result<(), SendError<T>>
+        {
+            match self
+            {
+                Sender::Std(s) => s.send(t),
+                Sender::Ctl(c) =>
+                {
+                    if let Some((inner, me)) = ctx()
+                    {
+                        let st = lock(&inner);
+                        reschedule(&inner, st, me, true);
+                    }
+                    {
+                        let mut st = lock(&c.inner);
+                        st.ev.sends += 1;
+                        if !*c.receiver_alive.lock().unwrap()
+                        {
+                            st.ev.send_to_dropped_receiver += 1;
+                            return Err(SendError(t));
+                        }
+                    }
+                    c.q.lock().unwrap().push_back(t);
+                    wake_receiver(&c.inner, c.id);
+                    Ok(())
+                }
+            }
+        }
+    }
+
+    impl<T> Clone for Sender<T>
+    {
+        fn clone(&self) -> Self
+        {
+            match self
+            {
+                Sender::Std(s) => Sender::Std(s.clone()),
+                Sender::Ctl(c) =>
+                {
+                    *c.senders.lock().unwrap() += 1;
+                    Sender::Ctl(c.clone())
+                }
+            }
+        }
+    }
+
+    impl<T> Drop for Sender<T>
+    {
+        fn drop(&mut self)
+        {
+            if let Sender::Ctl(c) = self
+            {
+                let mut n = c.senders.lock().unwrap_or_else(|e| e.into_inner());
+                *n -= 1;
+                if *n == 0
+                {
+                    drop(n);
+                    wake_receiver(&c.inner, c.id);
+                }
+            }
+        }
+    }
+
+    impl<T> Receiver<T>
+    {
+        pub fn recv(&self) -> Result<T, RecvError>
+        {
+            match self
+            {
+                Receiver::Std(r) => r.recv(),
+                Receiver::Ctl(c) =>
+                {
+                    let (inner, me) = match ctx()
+                    {
+                        Some(x) => x,
+                        None =>
+                        {
+                            // receiver used outside its execution: behave like a closed channel
+                            return c.q.lock().unwrap().pop_front().ok_or(RecvError);
+                        }
+                    };
+                    {
+                        let st = lock(&inner);
+                        reschedule(&inner, st, me, true);
+                    }
+                    loop
+                    {
+                        if let Some(v) = c.q.lock().unwrap().pop_front()
+                        {
+                            return Ok(v);
+                        }
+                        if *c.senders.lock().unwrap() == 0
+                        {
+                            lock(&inner).ev.recv_on_closed += 1;
+                            return Err(RecvError);
+                        }
+                        let mut st = lock(&inner);
+                        st.status[me] = Status::BlockedRecv(c.id);
+                        st.ev.recv_blocked += 1;
+                        reschedule(&inner, st, me, false);
+                    }
+                }
+            }
+        }
+    }
+
+    impl<T> Drop for Receiver<T>
+    {
+        fn drop(&mut self)
+        {
+            if let Receiver::Ctl(c) = self
+            {
+                *c.receiver_alive.lock().unwrap_or_else(|e| e.into_inner()) = false;
+            }
+        }
+    }
+}
